@@ -137,12 +137,7 @@ func (c *c15) organismBinary() {
 // comparison of an error value with nil); otherwise the first other condition.
 func nonErrorGuard(tm *Termer, b *ssa.BasicBlock) string {
 	for _, g := range Guards(b) {
-		bin, ok := g.Cond.(*ssa.BinOp)
-		if ok && (bin.Op == token.EQL || bin.Op == token.NEQ) {
-			x, y := bin.X, bin.Y
-			if k, isC := x.(*ssa.Const); isC && k.Value == nil {
-				x, y = y, x
-			}
+		if x, y, op, ok := CmpFact(g.Cond, g.True); ok && (op == token.EQL || op == token.NEQ) {
 			if k, isC := y.(*ssa.Const); isC && k.Value == nil && isErrorType(x.Type()) {
 				continue
 			}
@@ -434,6 +429,7 @@ func (c *c15) populationIO() {
 	fn := p.Func(PkgG, "ReadPopulation")
 	r.Fn(FuncName(fn))
 	tm := NewTermer(fn)
+	c.lineSplitAccepts(label+".split", fn, 2)
 	calls, und := fmtCalls(fn)
 	if len(und) > 0 {
 		r.Undecided(label+".reframe", p.Pos(und[0].Pos()), "a fmt call with a non-constant format")
@@ -470,6 +466,39 @@ func (c *c15) populationIO() {
 		return ok
 	}
 	r.Check(isBuf(consumers[0].Common().Args[0]), label+".reframe.consumer", p.Pos(consumers[0].Pos()), "ReadGenome reads the re-framed buffer", "ReadGenome is not fed with the re-framed buffer")
+	// the id the genome gets: ReadGenome installs its id argument, so that argument is the number parsed (faithfully, in
+	// decimal) from the rest of a split line - the text behind the keyword of the genomestart line; resets to a constant
+	// between two genomes are the only other values the variable may carry
+	{
+		idT := tm.Of(consumers[0].Common().Args[1])
+		okID, whyID := false, "the id passed to ReadGenome ("+idT.String()+") is never a number parsed from the file"
+		for _, a := range idT.Alternatives() {
+			if a.Op == "const" || a.Op == "loop" {
+				continue
+			}
+			src := a
+			if src.Op == "extract" && src.Idx == 0 && len(src.Args) == 1 {
+				src = src.Args[0]
+			}
+			isParse := src.Op == "call" && (src.Name == "strconv.Atoi" || src.Name == "strconv.ParseInt") && len(src.Args) >= 1
+			rest := false
+			if isParse {
+				if e := src.Args[0]; e.Op == "elem" && len(e.Args) == 2 && e.Args[1].String() == "1" && e.Args[0].Op == "call" && e.Args[0].Name == "strings.SplitN" {
+					rest = true
+				}
+			}
+			if !isParse || !rest {
+				okID, whyID = false, "the id passed to ReadGenome can be "+a.String()+", not the number behind the keyword of the genomestart line"
+				break
+			}
+			if n := narrowingParsers(a, types.Typ[types.Int]); len(n) > 0 {
+				okID, whyID = false, "the genome id: "+strings.Join(n, "; ")
+				break
+			}
+			okID = true
+		}
+		r.Check(okID, label+".genome-id", p.Pos(consumers[0].Pos()), "the id handed to ReadGenome is the number parsed from the rest of the genomestart line", whyID)
+	}
 	// the buffer owns its memory: NewBufferString copies the string; NewBuffer(b) builds the buffer ON b, so b must be
 	// storage made for it (a conversion from a string, make, a copy appended to an empty slice). A buffer built on
 	// somebody else's bytes (the scanner's line) is rewritten by its owner while the genome is being collected, and
@@ -675,11 +704,13 @@ func (c *c15) gobSeq(fn *ssa.Function, enc bool, subjIdx int) ([]gobItem, string
 	guardsOf := func(in ssa.Instruction) []string {
 		var out []string
 		for _, g := range Guards(in.Block()) {
-			gt := tm.Of(g.Cond)
-			if gt.Op == "bin" && gt.Args[1].Op == "nil" {
-				if ps, ok := subjPath(gt.Args[0]); ok {
-					if (gt.Name == "!=" && g.True) || (gt.Name == "==" && !g.True) {
+			// the fact `subj.F != nil` holds here, however the test is spelled
+			if gx, gy, op, okc := c15HeldFact(tm, g); okc && (op == token.NEQ || op == token.EQL) && gy.Op == "nil" {
+				if ps, ok := subjPath(gx); ok {
+					if op == token.NEQ {
 						out = append(out, "nonnil:"+ps)
+					} else {
+						out = append(out, "isnil:"+ps) // performed only when the field is nil (an inverted presence test)
 					}
 				}
 			}
@@ -863,8 +894,13 @@ func (c *c15) gobSeq(fn *ssa.Function, enc bool, subjIdx int) ([]gobItem, string
 				if cal.Signature.Recv() != nil {
 					// local.Decode(dec): the local is later stored into subj.F[i]
 					if ia, ok := ci.Call.Args[0].(*ssa.IndexAddr); ok {
-						// subj.F[i].Decode(dec): decoded in place
-						if ps, ok := subjPath(tm.Of(ia.X)); ok && inLoop != nil {
+						// subj.F[i].Decode(dec): decoded in place (also through a local list that becomes subj.F as a whole)
+						ps, ok := subjPath(tm.Of(ia.X))
+						if !ok {
+							ps = c15LocalListOfSubject(tm, ia.X, subjPath)
+							ok = ps != ""
+						}
+						if ok && inLoop != nil {
 							if idx, _, okc := countsUp(inLoop); okc && ia.Index == idx {
 								it.kind, it.name = "each", ps
 							}
@@ -934,15 +970,34 @@ func (c *c15) gobSeq(fn *ssa.Function, enc bool, subjIdx int) ([]gobItem, string
 
 // countsUp: the loop runs its counter over 0, 1, .. while counter < bound. Returns the value that is the counter
 // inside the body and the bound. Two forms: `for i := 0; i < B; i++` (phi[0, phi+1], test phi < B) and the
-// index form of `for i := range xs` (phi[-1, inc], inc = phi+1, test inc < len).
+// index form of `for i := range xs` (phi[-1, inc], inc = phi+1, test inc < len). The test is read as the fact
+// that holds on the edge that stays in the loop (CmpFact), so `B > i`, `!(i >= B)` and a swapped branch are the same test.
 func countsUp(l *Loop) (idx ssa.Value, bound ssa.Value, ok bool) {
 	iff, isIf := l.Header.Instrs[len(l.Header.Instrs)-1].(*ssa.If)
-	if !isIf || !l.Blocks[l.Header.Succs[0]] || l.Blocks[l.Header.Succs[1]] {
+	if !isIf || l.Blocks[l.Header.Succs[0]] == l.Blocks[l.Header.Succs[1]] {
 		return nil, nil, false
 	}
-	b, isB := iff.Cond.(*ssa.BinOp)
-	if !isB || b.Op != token.LSS {
+	cx, cy, op, okc := CmpFact(iff.Cond, l.Blocks[l.Header.Succs[0]])
+	if !okc {
 		return nil, nil, false
+	}
+	switch op {
+	case token.LSS:
+	case token.GTR:
+		cx, cy = cy, cx
+	default:
+		return nil, nil, false
+	}
+	isOne := func(v ssa.Value) bool {
+		k, isC := v.(*ssa.Const)
+		return isC && k.Value != nil && k.Value.ExactString() == "1"
+	}
+	plusOne := func(v ssa.Value, ph *ssa.Phi) bool {
+		bo, isBo := v.(*ssa.BinOp)
+		if !isBo || bo.Op != token.ADD {
+			return false
+		}
+		return (bo.X == ssa.Value(ph) && isOne(bo.Y)) || (bo.Y == ssa.Value(ph) && isOne(bo.X))
 	}
 	phiOK := func(ph *ssa.Phi, init string, next ssa.Value) bool {
 		if ph.Block() != l.Header {
@@ -961,30 +1016,25 @@ func countsUp(l *Loop) (idx ssa.Value, bound ssa.Value, ok bool) {
 					if e != next {
 						return false
 					}
-				} else {
-					bo, isBo := e.(*ssa.BinOp)
-					if !isBo || bo.Op != token.ADD || bo.X != ssa.Value(ph) {
-						return false
-					}
-					k, isC := bo.Y.(*ssa.Const)
-					if !isC || k.Value == nil || k.Value.ExactString() != "1" {
-						return false
-					}
+				} else if !plusOne(e, ph) {
+					return false
 				}
 				okStep = true
 			}
 		}
 		return okInit && okStep
 	}
-	switch x := b.X.(type) {
+	switch x := cx.(type) {
 	case *ssa.Phi:
 		if phiOK(x, "0", nil) {
-			return x, b.Y, true
+			return x, cy, true
 		}
 	case *ssa.BinOp:
-		if ph, isPhi := x.X.(*ssa.Phi); isPhi && x.Op == token.ADD && x.Block() == l.Header {
-			if k, isC := x.Y.(*ssa.Const); isC && k.Value != nil && k.Value.ExactString() == "1" && phiOK(ph, "-1", x) {
-				return x, b.Y, true
+		if x.Op == token.ADD && x.Block() == l.Header {
+			for _, o := range []ssa.Value{x.X, x.Y} {
+				if ph, isPhi := o.(*ssa.Phi); isPhi && plusOne(x, ph) && phiOK(ph, "-1", x) {
+					return x, cy, true
+				}
 			}
 		}
 	}
@@ -1065,7 +1115,15 @@ func (c *c15) gobPairs() {
 				}
 			}
 			if bad != "" {
-				r.Bad(x.label+".guard:"+e.name, p.Pos(e.in.Pos()), fmt.Sprintf("%s is encoded only when %s, but decoded unconditionally: a record without it cannot be read back (the decoder runs into the next value or EOF)", e.name, strings.TrimPrefix(bad, "nonnil:")+" != nil"))
+				cond := strings.TrimPrefix(bad, "nonnil:") + " != nil"
+				if strings.HasPrefix(bad, "isnil:") {
+					cond = strings.TrimPrefix(bad, "isnil:") + " == nil"
+				}
+				cons := x.label + ".guard:" + e.name
+				if strings.HasPrefix(bad, "isnil:") {
+					cons = x.label + ".guard-inverted:" + e.name // (a different fact than a presence guard without counterpart)
+				}
+				r.Bad(cons, p.Pos(e.in.Pos()), fmt.Sprintf("%s is encoded only when %s, but decoded unconditionally: a record without it cannot be read back (the decoder runs into the next value or EOF)", e.name, cond))
 				continue
 			}
 			for _, g := range d.guards {
@@ -1115,6 +1173,9 @@ func (c *c15) gobPairs() {
 					}
 					if isLenLocal(bound) {
 						ok = true
+					} else if ms, isMS := c15LenOfMake(bound); isMS && isLenLocal(ms.Len) {
+						// len(list), list := make(T, n) with n the decoded length (a local list that becomes subj.F, see gobSeq)
+						ok = true
 					} else if bt := NewTermer(df).Of(bound); bt.Op == "len" {
 						// len(subj.F) where every store into subj.F is make(T, n) with n the decoded length
 						base, path := bt.Args[0].FieldPath()
@@ -1146,9 +1207,10 @@ func (c *c15) gobPairs() {
 			l := InnermostLoop(Loops(ef), it.in.Block())
 			ok := false
 			if l != nil {
-				if iff, isIf := l.Header.Instrs[len(l.Header.Instrs)-1].(*ssa.If); isIf {
-					ct := NewTermer(ef).Of(iff.Cond)
-					ok = ct.Op == "bin" && ct.Name == "<" && ct.Args[1].Op == "len" && strings.HasSuffix(ct.Args[1].Args[0].String(), "."+it.name)
+				// the loop counts 0..len(subj.F)-1 (any spelling of the test)
+				if _, bound, okc := countsUp(l); okc {
+					bt := NewTermer(ef).Of(bound)
+					ok = bt.Op == "len" && strings.HasSuffix(bt.Args[0].String(), "."+it.name)
 				}
 			}
 			r.Check(ok, x.label+".each-enc:"+it.name, p.Pos(it.in.Pos()), "every element is encoded", "not every element of "+it.name+" is encoded")
@@ -1428,6 +1490,36 @@ func (c *c15) solverModel() {
 	}
 	// modules: element-wise struct mapping both ways
 	c.solverModules(mk, rd, restored["modules"])
+	// the element-wise copies out of the decoded holder run whenever the holder's lists are there: with every test of
+	// len(holder.F) / holder.F against 0 / nil decided for a non-empty list, no path that returns without an error skips
+	// one of the copy loops (`if len(data.Modules) > 0` inverted restores a solver without its modules)
+	{
+		rtm := NewTermer(rd)
+		fixed := c15PresenceFacts(rd, rtm, func(t *Term) bool {
+			b, path := t.FieldPath()
+			return b != nil && b.Op == "new" && len(path) == 1
+		})
+		bad := ""
+		var badPath []string
+		rloops := Loops(rd)
+		for _, l := range rloops {
+			if len(OuterLoops(rloops, l.Header)) != 1 {
+				continue
+			}
+			l := l
+			if path := c15SuccessPath(p, c15SuccessQuery{fn: rd, fixed: fixed, explored: &r.PathsExplored, avoid: func(i ssa.Instruction) bool { return i.Block() == l.Header }}); path != nil && bad == "" {
+				pos := firstBlockPos(l.Header)
+				for b := range l.Blocks {
+					if bp := firstBlockPos(b); bp.IsValid() && (!pos.IsValid() || bp < pos) {
+						pos = bp
+					}
+				}
+				bad, badPath = p.Pos(pos), path
+			}
+		}
+		r.Check(bad == "", label+".lists-copied", p.Pos(rd.Pos()), "every copy loop over a list of the decoded holder runs when that list is not empty",
+			"the loop at "+bad+" that copies a list of the decoded holder can be skipped although the list is not empty: that part of the solver is not restored", badPath...)
+	}
 	// derived field
 	sn := csm.Fields[p.Field(PkgN, "FastModularNetworkSolver", "sensorNeuronCount")]
 	r.Check(sn != nil && sn.Op == "bin" && sn.Name == "+" && ((sn.Args[0].String() == "p0" && sn.Args[1].String() == "p1") || (sn.Args[0].String() == "p1" && sn.Args[1].String() == "p0")),
@@ -1569,4 +1661,17 @@ func (c *c15) solverModules(mk, rd *ssa.Function, restoredFrom string) {
 			fmt.Sprintf("module field %s: holder.%s <- module.%s on writing, module.%s <- holder.%s on reading", f, f, wmap[f], f, rmap[f]))
 	}
 	r.Check(strings.HasPrefix(restoredFrom, "Modules"), label+".list", p.Pos(rd.Pos()), "modules restored element-wise from holder.Modules", "the solver's modules are restored from "+restoredFrom)
+}
+
+// c15LenOfMake: v is len(s) of a list made here with make.
+func c15LenOfMake(v ssa.Value) (*ssa.MakeSlice, bool) {
+	cl, ok := v.(*ssa.Call)
+	if !ok {
+		return nil, false
+	}
+	if b, isB := cl.Call.Value.(*ssa.Builtin); !isB || b.Name() != "len" || len(cl.Call.Args) != 1 {
+		return nil, false
+	}
+	ms, ok := stripPtr(cl.Call.Args[0]).(*ssa.MakeSlice)
+	return ms, ok
 }
